@@ -42,11 +42,38 @@ def COMPILED(src):
     return z3.Function("dict_get", Val, Val, Val)(ns, key)
 
 
+def checksum_attr():
+    """name of the evaluator's change-detection attribute: the class-level attribute initialised to "" (renaming it is
+    harmless, so the contract does not hard-code `_checksum`)"""
+    import ast as _ast
+    from pyvc.contract import load_module
+    try:
+        mod = load_module("pyab_experiment.experiment_evaluator")
+    except OSError:
+        return "_checksum"
+    for n in mod.tree.body:
+        if isinstance(n, _ast.ClassDef) and n.name == "ExperimentEvaluator":
+            for st in n.body:
+                tgt, val = None, None
+                if isinstance(st, _ast.AnnAssign) and isinstance(st.target, _ast.Name):
+                    tgt, val = st.target.id, st.value
+                elif isinstance(st, _ast.Assign) and len(st.targets) == 1 and isinstance(st.targets[0], _ast.Name):
+                    tgt, val = st.targets[0].id, st.value
+                if tgt and isinstance(val, _ast.Constant) and val.value == "":
+                    return tgt
+    return "_checksum"
+
+
+CK = "_checksum"
+
+
 def setup(reg):
+    global CK
+    CK = checksum_attr()
     """assumed contracts of the pipeline stages (summaries; the stages themselves are verified by the lexer / grammar /
     generator links) + class-level attributes of the evaluator"""
-    reg.classes[EV] = {"_checksum": ("value", z3.StringVal("")), "run_experiment": ("value", CLASS_DEFAULT_RUN)}
-    reg.sorts[(EV, "_checksum")] = S
+    reg.classes[EV] = {CK: ("value", z3.StringVal("")), "run_experiment": ("value", CLASS_DEFAULT_RUN)}
+    reg.sorts[(EV, CK)] = S
 
     def ctor(cls, fields):
         def h(ex, p, pos, kw, node):
@@ -200,7 +227,7 @@ class Recompile(Contract):
 
     def shapes(self):
         def build(p):
-            s = p.new_obj(EV, origin="self", attrs={"_checksum": z3.String("self._checksum@pre"),
+            s = p.new_obj(EV, origin="self", attrs={CK: z3.String("self._checksum@pre"),
                                                     "run_experiment": z3.Const("self.run_experiment@pre", Val)})
             return Args(self=s, source_code=z3.String("source_code"))
         return [Shape("self,str", build)]
@@ -225,7 +252,7 @@ class Recompile(Contract):
         return (self.DIG if self.DIG is not None else MD5HEX)(UTF8(text))
 
     def hit(self, a, pre):
-        c = pre["_checksum"]
+        c = pre[CK]
         if not (z3.is_expr(c) and c.sort() == S):
             return z3.BoolVal(False)
         return c == self.digest(a.source_code)
@@ -239,7 +266,7 @@ class Recompile(Contract):
 
     def _pre(self, a, p):
         d = dict(self.callee_pre[a.self.oid] if self.callee_view else self.verify_pre[a.self.oid])
-        d.setdefault("_checksum", z3.StringVal(""))            # class-level defaults of a fresh instance
+        d.setdefault(CK, z3.StringVal(""))            # class-level defaults of a fresh instance
         d.setdefault("run_experiment", CLASS_DEFAULT_RUN)
         return d
 
@@ -273,7 +300,7 @@ class Recompile(Contract):
         post = p.heap[a.self.oid]["attrs"]
         src = a.source_code
         hit = self.hit(a, pre)
-        c1 = post.get("_checksum", pre["_checksum"])
+        c1 = post.get(CK, pre[CK])
         r1 = post.get("run_experiment", pre["run_experiment"])
         r1v = to_val(r1)
         switched_here = r1 is not pre["run_experiment"]
@@ -284,12 +311,12 @@ class Recompile(Contract):
                 if c1.eq(h(UTF8(src))):
                     type(self).DIG = h
         c_is_str = z3.is_expr(c1) and c1.sort() == S
-        unchanged = z3.And(to_val(c1) == to_val(pre["_checksum"]), r1v == to_val(pre["run_experiment"]))
+        unchanged = z3.And(to_val(c1) == to_val(pre[CK]), r1v == to_val(pre["run_experiment"]))
         fv = self.free_consts(r1v) if switched_here else set()
         foreign = sorted(x for x in fv if x != str(src) and not x.startswith(self.ALLOWED_CONSTS))
         switched = z3.And((c1 == self.digest(src)) if c_is_str else z3.BoolVal(False), r1v == self.F(src, a),
                           z3.BoolVal(self.callee_view or (switched_here and not foreign)))
-        i0 = self.inv(a, pre["_checksum"], to_val(pre["run_experiment"]), self.acc_none, self.acc)
+        i0 = self.inv(a, pre[CK], to_val(pre["run_experiment"]), self.acc_none, self.acc)
         acc1_none = z3.And(hit, self.acc_none)
         acc1 = z3.If(hit, self.acc, src)
         out = [("no-op-on-current-text", z3.Implies(hit, unchanged)),
@@ -312,9 +339,9 @@ class Recompile(Contract):
     def apply_effects(self, a, p, kind):
         if kind == "return":
             at = p.heap[a.self.oid]["attrs"]
-            at["_checksum"] = fresh("self._checksum@post", S)
+            at[CK] = fresh("self._checksum@post", S)
             at["run_experiment"] = fresh("self.run_experiment@post", Val)
-            p.effects.append(("store-attr", a.self.oid, "_checksum", at["_checksum"], p.heap[a.self.oid]["origin"]))
+            p.effects.append(("store-attr", a.self.oid, CK, at[CK], p.heap[a.self.oid]["origin"]))
             p.effects.append(("store-attr", a.self.oid, "run_experiment", at["run_experiment"], p.heap[a.self.oid]["origin"]))
 
     def frame(self, a, p, kind, pre):
@@ -322,7 +349,7 @@ class Recompile(Contract):
         post = p.heap[a.self.oid]["attrs"]
         stores = [e for e in p.effects if e[0] == "store-attr"]
         foreign = [e for e in stores if e[1] != a.self.oid and e[4] != "fresh"]
-        other_attrs = [e for e in stores if e[1] == a.self.oid and e[2] not in ("_checksum", "run_experiment")]
+        other_attrs = [e for e in stores if e[1] == a.self.oid and e[2] not in (CK, "run_experiment")]
         dynamic = [e for e in p.effects if e[0] == "store-attr-dynamic"]
         shared_ns = [e for e in p.effects if e[0] == "exec-into-shared-namespace"]
         out = [("writes-only-self._checksum,self.run_experiment(instance-local)", z3.BoolVal(not foreign and not other_attrs and not dynamic)),
@@ -396,7 +423,7 @@ class EvaluatorInit(Contract):
     def ensures(self, a, r, p):
         post = p.heap[a.self.oid]["attrs"]
         src = a.source_code
-        c1 = post.get("_checksum", z3.StringVal(""))
+        c1 = post.get(CK, z3.StringVal(""))
         r1 = to_val(post.get("run_experiment", CLASS_DEFAULT_RUN))
         # the fresh instance satisfies I with accepted=None; after __init__, I holds with accepted = source_code
         # (under the assumption MD5HEX(utf8(src)) != "" -- the digest has 32 characters)
@@ -435,7 +462,7 @@ class EvaluatorCall(Contract):
 
     def shapes(self):
         def build(p):
-            s = p.new_obj(EV, origin="self", attrs={"_checksum": z3.String("self._checksum@pre"),
+            s = p.new_obj(EV, origin="self", attrs={CK: z3.String("self._checksum@pre"),
                                                     "run_experiment": z3.Const("self.run_experiment@pre", Val)})
             return Args(self=s, kwargs=KwSplat(z3.Const("kwargs", Val)))
         return [Shape("self,**kwargs", build)]
